@@ -1,9 +1,10 @@
 //! C09 — Merkle membership proofs cannot vouch for anything outside the committed set.
 //!
 //! Bounded exhaustive enumeration on the real code of three structures:
-//!  1. the STM signer-registration tree (source-included, byte-string leaves)          → c09_stm.rs
-//!  2. the generic `MKTree` / `MKProof`                                                → c09_mk.rs
-//!  3. the nested `MKMap` / `MKMapProof` and `MkSetProof` on top of it                  → c09_map.rs
+//!  1.  the STM signer-registration tree (source-included, byte-string leaves)             → c09_stm.rs
+//!  1b. the same tree through registration → clerk → `AggregateSignature::verify`          → c09_agg.rs
+//!  2.  the generic `MKTree` / `MKProof`                                                   → c09_mk.rs
+//!  3.  the nested `MKMap` / `MKMapProof` keyed by `BlockRange`, and `MkSetProof`          → c09_map.rs
 //!
 //! Oracle everywhere: honest proofs verify; a proof that verifies against the commitment states
 //! only true things about the committed list(s).  Never "a mutant must be rejected".
@@ -24,67 +25,83 @@ fn merge_rev(rep: &mut Report, parts: Vec<Report>) {
     }
 }
 
-pub fn run(ctx: &Ctx) -> ! {
-    let mut rep = Report::new(
-        "exploration",
-        "TODO",
-    );
-    if let Some(path) = &ctx.replay {
-        let v = mc_core::load_replay(path);
-        match v["part"].as_str().unwrap_or("") {
-            "stm" | "stm-honest" => stm::replay(&mut rep, &v),
-            "stm-aggregate" | "stm-aggregate-honest" => agg::replay(&mut rep, &v),
-            "mkproof" | "mkproof-honest" => mk::replay(&mut rep, &v),
-            "mkmap" | "mkmap-honest" => map::replay(&mut rep, &v),
-            other => {
-                eprintln!("unknown replay part {other}");
-                std::process::exit(2);
+/// depth-2 jobs are cut into this many chunks of the depth-1 mutant list (load balance only)
+const CHUNKS: usize = 8;
+
+/// (n, subset mask, depth, chunk, chunks)
+fn subsets_jobs(max_n: usize, pairs_n: usize) -> Vec<(usize, u32, usize, usize, usize)> {
+    let mut jobs = vec![];
+    for n in (1..=max_n).rev() {
+        for mask in (1u32..(1u32 << n)).rev() {
+            if n <= pairs_n {
+                for c in (0..CHUNKS).rev() {
+                    jobs.push((n, mask, 2, c, CHUNKS));
+                }
+            } else {
+                jobs.push((n, mask, 1, 0, 1));
             }
         }
-        rep.nontrivial(&0);
-        rep.nontrivial(&1);
-        rep.finish(ctx);
     }
-    let threads = ctx.threads();
+    // the expensive depth-2 jobs first (stable: sizes stay largest-first inside each class)
+    jobs.sort_by_key(|j| std::cmp::Reverse(j.2));
+    jobs
+}
 
-    // ---- part 1: STM tree ------------------------------------------------------------------
-    let (stm_n_honest, stm_n_single, stm_n_pairs) = ctx.tier.pick((10usize, 6usize, 0usize), (16, 8, 5));
-    rep.extra("stm_bounds", json!({"honest_all_subsets_up_to_n": stm_n_honest, "single_mutations_up_to_n": stm_n_single, "paired_mutations_up_to_n": stm_n_pairs}));
-    // honest: split the big sizes so that threads share the work
-    let sizes: Vec<usize> = (1..=stm_n_honest).rev().collect();
-    merge_rev(&mut rep, par_map(&sizes, threads, |_, &n| stm::honest_sweep(n)));
-    let mut jobs: Vec<(usize, u32, usize)> = vec![];
-    for n in (1..=stm_n_single).rev() {
-        for mask in 1u32..(1u32 << n) {
-            jobs.push((n, mask, if n <= stm_n_pairs { 2 } else { 1 }));
+/// sizes beyond the exhaustive bound (largest first): around powers of two and a few odd shapes
+fn large_sizes(ctx: &Ctx) -> Vec<usize> {
+    let mut v: Vec<usize> = ctx.tier.pick(vec![17, 31, 32, 33, 40, 64, 100], vec![17, 20, 24, 31, 32, 33, 40, 47, 63, 64, 65, 100, 127, 128, 129, 200, 255, 256, 257]);
+    v.reverse();
+    v
+}
+
+fn part_stm(ctx: &Ctx, rep: &mut Report) {
+    let threads = ctx.threads();
+    let (n_honest, n_single, n_pairs) = ctx.tier.pick((12usize, 7usize, 0usize), (16, 8, 5));
+    let sizes: Vec<usize> = (1..=n_honest).rev().collect();
+    merge_rev(rep, par_map(&sizes, threads, |_, &n| stm::honest_sweep(n)));
+    let jobs = subsets_jobs(n_single, n_pairs);
+    merge_rev(rep, par_map(&jobs, threads, |_, &(n, mask, depth, c, cs)| stm::mutation_sweep(n, mask, depth, c, cs)));
+    let sizes: Vec<usize> = (1..=n_single).rev().collect();
+    merge_rev(rep, par_map(&sizes, threads, |_, &n| stm::cross_commitment_sweep(n)));
+    // designed forgeries: claims anywhere in the extended position range with the forger's best path
+    let (forge_n, claims_small, claims_mid, brute_n) = ctx.tier.pick((12usize, 3usize, 2usize, 3usize), (16, 4, 3, 5));
+    let claims_for = |n: usize| if n <= 4 { claims_small } else if n <= 8 { claims_mid } else { 2 };
+    let mut jobs: Vec<(usize, bool, usize)> = vec![];
+    for node_like in [true, false] {
+        for n in (1..=forge_n).rev() {
+            for first in (0..stm::forger_range(n)).rev() {
+                jobs.push((n, node_like, first));
+            }
         }
     }
-    jobs.sort_by_key(|j| std::cmp::Reverse(j.2));
-    merge_rev(&mut rep, par_map(&jobs, threads, |_, &(n, mask, depth)| stm::mutation_sweep(n, mask, depth)));
-    let sizes: Vec<usize> = (1..=stm_n_single).rev().collect();
-    merge_rev(&mut rep, par_map(&sizes, threads, |_, &n| stm::cross_commitment_sweep(n)));
-    // designed forgeries: claims anywhere in the extended position range with the forger's best path
-    let (forge_n, forge_claims, brute_n) = ctx.tier.pick((10usize, 2usize, 3usize), (16, 3, 5));
-    rep.extra("stm_forger_bounds", json!({"up_to_n": forge_n, "max_claims": forge_claims, "brute_force_single_claim_up_to_n": brute_n}));
-    let mut jobs: Vec<(usize, bool)> = vec![];
-    for n in (1..=forge_n).rev() {
-        jobs.push((n, true));
-    }
-    for n in (1..=forge_n).rev() {
-        jobs.push((n, false));
-    }
-    merge_rev(&mut rep, par_map(&jobs, threads, |_, &(n, node_like)| stm::forger_sweep(n, if n <= 4 { forge_claims + 1 } else if n <= 8 { forge_claims } else { 2 }, node_like)));
+    merge_rev(rep, par_map(&jobs, threads, |_, &(n, node_like, first)| stm::forger_sweep(n, claims_for(n), node_like, first)));
     let mut jobs: Vec<(usize, usize)> = vec![];
     for n in (1..=brute_n).rev() {
-        for index in 0..(2 * n.next_power_of_two() + 2) {
+        for index in (0..(2 * n.next_power_of_two() + 2)).rev() {
             jobs.push((n, index));
         }
     }
-    merge_rev(&mut rep, par_map(&jobs, threads, |_, &(n, index)| stm::brute_force_single_claim(n, index)));
-    eprintln!("[C09] part 1 (STM tree, source-included) done at {:.1}s", ctx.elapsed_s());
-    // ---- part 1b: the same tree through registration → clerk → AggregateSignature::verify ----
+    merge_rev(rep, par_map(&jobs, threads, |_, &(n, index)| stm::brute_force_single_claim(n, index)));
+    // beyond the exhaustive bound: fixed larger sizes with a fixed selection of index subsets
+    let large = large_sizes(ctx);
+    merge_rev(rep, par_map(&large, threads, |_, &n| stm::large_size_sweep(n, n <= 40)));
+    rep.extra("stm_larger_sizes_with_selected_subsets", json!(large));
+    rep.extra(
+        "stm_bounds",
+        json!({
+            "honest_every_subset_of_every_size_up_to_n": n_honest,
+            "every_single_mutation_up_to_n": n_single,
+            "every_pair_of_mutations_up_to_n": n_pairs,
+            "forger_path_up_to_n": forge_n,
+            "forger_claimed_positions": {"n<=4": claims_small, "n<=8": claims_mid, "larger": 2},
+            "forger_position_range": "0 .. 4*next_pow2(n)+1 (inside the tree, the padding area, one level below the leaves)",
+            "brute_force_single_claim_up_to_n": brute_n,
+        }),
+    );
+}
+
+fn part_agg(ctx: &Ctx, rep: &mut Report) {
     let (agg_n, agg_pairs_n) = ctx.tier.pick((3usize, 0usize), (4, 2));
-    rep.extra("stm_aggregate_bounds", json!({"registrations_up_to_parties": agg_n, "all_signer_subsets": true, "paired_mutations_up_to_parties": agg_pairs_n}));
     let mut jobs: Vec<(usize, u32)> = vec![];
     for n in (1..=agg_n).rev() {
         for mask in (1u32..(1u32 << n)).rev() {
@@ -92,45 +109,55 @@ pub fn run(ctx: &Ctx) -> ! {
         }
     }
     jobs.sort_by_key(|j| std::cmp::Reverse(if j.0 <= agg_pairs_n { 1 } else { 0 }));
-    merge_rev(&mut rep, par_map(&jobs, threads, |_, &(n, mask)| agg::sweep_one(n, mask, if n <= agg_pairs_n { 2 } else { 1 })));
+    merge_rev(rep, par_map(&jobs, ctx.threads(), |_, &(n, mask)| agg::sweep_one(n, mask, if n <= agg_pairs_n { 2 } else { 1 })));
+    rep.extra("stm_aggregate_bounds", json!({"registrations_up_to_parties": agg_n, "every_non_empty_signer_subset": true, "every_pair_of_mutations_up_to_parties": agg_pairs_n}));
+}
 
-    eprintln!("[C09] part 1b (aggregate signature seam) done at {:.1}s", ctx.elapsed_s());
-    // ---- part 2: MKTree / MKProof -----------------------------------------------------------
-    let (mk_n_honest, mk_n_single, mk_n_pairs, mk_n_frontier) = ctx.tier.pick((10usize, 6usize, 0usize, 8usize), (16, 8, 4, 12));
-    rep.extra("mkproof_bounds", json!({"honest_all_subsets_up_to_n": mk_n_honest, "single_mutations_up_to_n": mk_n_single, "paired_mutations_up_to_n": mk_n_pairs, "frontier_forgeries_up_to_n": mk_n_frontier}));
-    let sizes: Vec<usize> = (1..=mk_n_honest).rev().collect();
-    merge_rev(&mut rep, par_map(&sizes, threads, |_, &n| mk::honest_sweep(n)));
-    let mut jobs: Vec<(usize, u32, usize)> = vec![];
-    for n in (1..=mk_n_single).rev() {
-        for mask in 1u32..(1u32 << n) {
-            jobs.push((n, mask, if n <= mk_n_pairs { 2 } else { 1 }));
+fn part_mk(ctx: &Ctx, rep: &mut Report) {
+    let threads = ctx.threads();
+    let (n_honest, n_single, n_pairs, n_frontier) = ctx.tier.pick((12usize, 7usize, 0usize, 8usize), (16, 8, 4, 12));
+    let sizes: Vec<usize> = (1..=n_honest).rev().collect();
+    merge_rev(rep, par_map(&sizes, threads, |_, &n| mk::honest_sweep(n)));
+    let jobs = subsets_jobs(n_single, n_pairs);
+    merge_rev(rep, par_map(&jobs, threads, |_, &(n, mask, depth, c, cs)| mk::mutation_sweep(n, mask, depth, c, cs)));
+    let sizes: Vec<usize> = (1..=n_frontier).rev().collect();
+    merge_rev(rep, par_map(&sizes, threads, |_, &n| mk::frontier_sweep(n)));
+    let sizes: Vec<usize> = (1..=n_single).rev().collect();
+    merge_rev(rep, par_map(&sizes, threads, |_, &n| mk::cross_root_sweep(n)));
+    let large = large_sizes(ctx);
+    merge_rev(rep, par_map(&large, threads, |_, &n| mk::large_size_sweep(n, n <= 40)));
+    rep.extra("mkproof_larger_sizes_with_selected_subsets", json!(large));
+    rep.extra(
+        "mkproof_bounds",
+        json!({
+            "honest_every_subset_of_every_size_up_to_n": n_honest,
+            "every_single_mutation_up_to_n": n_single,
+            "every_pair_of_mutations_up_to_n": n_pairs,
+            "same_root_frontier_lists_up_to_n": n_frontier,
+        }),
+    );
+}
+
+fn size_vectors(r: usize, s: usize) -> Vec<Vec<usize>> {
+    let mut out = vec![vec![]];
+    for _ in 0..r {
+        let mut next = vec![];
+        for v in &out {
+            for x in 1..=s {
+                let mut w = v.clone();
+                w.push(x);
+                next.push(w);
+            }
         }
+        out = next;
     }
-    jobs.sort_by_key(|j| std::cmp::Reverse(j.2));
-    merge_rev(&mut rep, par_map(&jobs, threads, |_, &(n, mask, depth)| mk::mutation_sweep(n, mask, depth)));
-    let sizes: Vec<usize> = (1..=mk_n_frontier).rev().collect();
-    merge_rev(&mut rep, par_map(&sizes, threads, |_, &n| mk::frontier_sweep(n)));
-    let sizes: Vec<usize> = (1..=mk_n_single).rev().collect();
-    merge_rev(&mut rep, par_map(&sizes, threads, |_, &n| mk::cross_root_sweep(n)));
-    eprintln!("[C09] part 2 (MKTree/MKProof) done at {:.1}s", ctx.elapsed_s());
-    // ---- part 3: MKMap / MKMapProof / MkSetProof --------------------------------------------
+    out
+}
+
+fn part_map(ctx: &Ctx, rep: &mut Report) {
+    let threads = ctx.threads();
     let (map_r, map_s, mut_total, pair_total) = ctx.tier.pick((3usize, 3usize, 4usize, 0usize), (4, 3, 6, 3));
     let mut structures: Vec<map::RefNode> = vec![];
-    fn size_vectors(r: usize, s: usize) -> Vec<Vec<usize>> {
-        let mut out = vec![vec![]];
-        for _ in 0..r {
-            let mut next = vec![];
-            for v in &out {
-                for x in 1..=s {
-                    let mut w = v.clone();
-                    w.push(x);
-                    next.push(w);
-                }
-            }
-            out = next;
-        }
-        out
-    }
     for r in 1..=map_r {
         for sizes in size_vectors(r, map_s) {
             structures.push(map::flat(&sizes, 0, 0));
@@ -142,36 +169,121 @@ pub fn run(ctx: &Ctx) -> ! {
             }
         }
     }
+    // two levels: outer ranges holding maps of block ranges holding trees
+    structures.push(map::nested(&[vec![1]]));
+    structures.push(map::nested(&[vec![2]]));
+    structures.push(map::nested(&[vec![1], vec![1]]));
+    structures.push(map::nested(&[vec![1, 1]]));
     for a in size_vectors(2, 2) {
         for b in size_vectors(1, 2).into_iter().chain(size_vectors(2, 2)) {
             structures.push(map::nested(&[a.clone(), b.clone()]));
         }
     }
-    structures.push(map::nested(&[vec![1], vec![1]]));
-    structures.push(map::nested(&[vec![2]]));
     structures.push(map::nested(&[vec![1], vec![2], vec![1, 1]]));
-    rep.extra("mkmap_bounds", json!({"flat_maps_up_to_ranges": map_r, "leaves_per_range_up_to": map_s, "structures": structures.len(), "single_mutations_up_to_total_items": mut_total, "paired_mutations_up_to_total_items": pair_total}));
-    let parts = par_map(&structures, threads, |_, st| map::honest_sweep(st));
-    for p in parts {
+    // smallest structures first, so that the first counterexample kept per key is a small one
+    structures.sort_by_key(|s| {
+        let mut all = vec![];
+        s.bottom_items(false, &mut all);
+        all.len()
+    });
+    for p in par_map(&structures, threads, |_, st| map::honest_sweep(st)) {
         rep.merge(p);
     }
-    let mut jobs: Vec<(usize, u32, usize)> = vec![];
-    for (si, st) in structures.iter().enumerate() {
+    let mut jobs: Vec<(usize, u32, usize, usize, usize)> = vec![];
+    for (si, st) in structures.iter().enumerate().rev() {
         let mut items = vec![];
         st.bottom_items(true, &mut items);
         let mut all = vec![];
         st.bottom_items(false, &mut all);
         if all.len() <= mut_total && !items.is_empty() {
-            for mask in 1u32..(1u32 << items.len()) {
-                jobs.push((si, mask, if all.len() <= pair_total { 2 } else { 1 }));
+            for mask in (1u32..(1u32 << items.len())).rev() {
+                if all.len() <= pair_total {
+                    for c in (0..4 * CHUNKS).rev() {
+                        jobs.push((si, mask, 2, c, 4 * CHUNKS));
+                    }
+                } else {
+                    jobs.push((si, mask, 1, 0, 1));
+                }
             }
         }
     }
-    rep.extra("mkmap_mutated_honest_proofs", json!(jobs.len()));
     jobs.sort_by_key(|j| std::cmp::Reverse(j.2));
-    for p in par_map(&jobs, threads, |_, &(si, mask, depth)| map::mutation_sweep(&structures[si], mask, depth)) {
-        rep.merge(p);
+    let mutated: std::collections::BTreeSet<(usize, u32)> = jobs.iter().map(|j| (j.0, j.1)).collect();
+    merge_rev(rep, par_map(&jobs, threads, |_, &(si, mask, depth, c, cs)| map::mutation_sweep(&structures[si], mask, depth, c, cs)));
+    rep.extra(
+        "mkmap_bounds",
+        json!({
+            "flat_maps_up_to_block_ranges": map_r,
+            "items_per_block_range_up_to": map_s,
+            "structures": structures.len(),
+            "honest": "every non-empty subset of the provable items of every structure",
+            "every_single_mutation_for_structures_up_to_total_items": mut_total,
+            "every_pair_of_mutations_for_structures_up_to_total_items": pair_total,
+            "honest_proofs_mutated": mutated.len(),
+        }),
+    );
+}
+
+pub fn run(ctx: &Ctx) -> ! {
+    let mut rep = Report::new(
+        "exploration",
+        "Every tree size n up to the bound and every non-empty index subset gets its proof from the real generator \
+         (STM batch path, MKProof; beyond the exhaustive bound a fixed list of larger sizes with a fixed selection of subsets — singletons, adjacent pairs, pairs with the last leaf, halves, evens/odds, all; for maps: every structure of the lattice and every non-empty subset of its items; for \
+         the aggregate-signature seam: every registration size and signer subset). Each honest proof of the smaller sizes \
+         is then put through every single (thorough: also every pair of) structural mutation: leaf replaced by another \
+         member / a non-member / the padding pre-image / an inner-node pre-image or inner node, stated position changed to \
+         every value of an extended range (incl. out of range and 2^64-1), claims dropped/duplicated/swapped, each path node \
+         dropped/duplicated/swapped/replaced by every node of the tree, the padding hash, a foreign hash, size and root \
+         fields changed, sub-proofs detached/duplicated/re-keyed/replaced/added, plus designed families (forger's path for \
+         claims at arbitrary positions, brute force over (position, leaf, path) for tiny trees, honest proofs of other \
+         lists with the same root, honest proofs against neighbouring commitments, key‖sub-root boundary shifts). Every \
+         case runs through the real verifier. A case counts as non-trivial and distinct when it is an honest proof, a \
+         depth-1 mutant, a designed forgery (forger's path: with at most two claimed positions), or any case (whatever depth) that the real verifier accepted; depth-2 and \
+         brute-force cases that were rejected are counted in evaluations only.",
+    );
+    if let Some(path) = &ctx.replay {
+        let v = mc_core::load_replay(path);
+        match v["part"].as_str().unwrap_or("") {
+            "stm" | "stm-honest" | "stm-large" => stm::replay(&mut rep, &v),
+            "stm-aggregate" | "stm-aggregate-honest" => agg::replay(&mut rep, &v),
+            "mkproof" | "mkproof-honest" | "mkproof-large" => mk::replay(&mut rep, &v),
+            "mkmap" | "mkmap-honest" => map::replay(&mut rep, &v),
+            other => {
+                eprintln!("unknown replay part {other}");
+                std::process::exit(2);
+            }
+        }
+        rep.nontrivial(&0);
+        rep.nontrivial(&1);
+        rep.finish(ctx);
     }
-    eprintln!("[C09] part 3 (MKMap/MKMapProof/MkSetProof) done at {:.1}s", ctx.elapsed_s());
+    // development aid: C09_PARTS=stm,agg,mk,map runs only some parts (the run is then marked non-exhaustive)
+    let only = std::env::var("C09_PARTS").ok();
+    let part_on = |name: &str| only.as_ref().map(|o| o.split(',').any(|p| p == name)).unwrap_or(true);
+    if only.is_some() {
+        rep.exhaustive = false;
+        rep.extra("parts_restricted_by_C09_PARTS", json!(only));
+    }
+    let parts: [(&str, &str, fn(&Ctx, &mut Report)); 4] = [
+        ("stm", "STM registration tree (source-included)", part_stm),
+        ("agg", "STM tree through AggregateSignature::verify", part_agg),
+        ("mk", "MKTree / MKProof", part_mk),
+        ("map", "MKMap / MKMapProof / MkSetProof", part_map),
+    ];
+    let mut timing = serde_json::Map::new();
+    for (name, what, f) in parts {
+        if part_on(name) {
+            let t0 = ctx.elapsed_s();
+            let before = rep.evaluations;
+            f(ctx, &mut rep);
+            eprintln!("[C09] {what}: {} cases in {:.1}s", rep.evaluations - before, ctx.elapsed_s() - t0);
+            timing.insert(name.to_string(), json!({"cases": rep.evaluations - before}));
+        }
+    }
+    rep.extra("cases_per_part", serde_json::Value::Object(timing));
+    rep.assume("collision and pre-image resistance of Blake2b-256 / Blake2s-256 is not what is tested: all hashes used as mutation material are values that occur in the committed structure (or fixed foreign values)");
+    rep.assume("the STM tree is compiled from the working-tree files tree.rs, commitment.rs, path.rs, leaf.rs, error.rs, mod.rs and codec.rs by source inclusion, with byte-string leaves and Blake2b-256 (the hash of the real registration tree); the real 104-byte (key, stake) leaf is covered by the aggregate-signature seam");
+    rep.assume("private proof fields are reached through mirror structs converted over the real bincode byte format (MKProof/MKMapProof::from_bytes), resp. through serde_json for AggregateSignature; overflow checks are on in this build, so position arithmetic that would wrap in a release build panics here and counts as not accepted");
+    rep.assume("for maps an item is 'committed' if it is a leaf of any tree of the nested structure, including map-level entries H(key‖sub-root): contains() accepting such an entry is counted (observed_map_level_entries_accepted_by_contains), not judged");
     rep.finish(ctx)
 }
